@@ -168,25 +168,29 @@ func runOneRace(c rcCase) (sx.V, sx.V, rcCase) {
 				}
 			}
 		})
-		wg.Wait()
+		waitBounded(&wg)
 		if rc := cl.ReattachConfig(); rc != nil {
 			pluginPid = rc.Pid
 		}
 		spawn(3, func(int) { cl.Kill() })
 		spawn(2, func(int) { cl.Exited(); cl.ID() })
-		wg.Wait()
+		waitBounded(&wg)
 	default:
-		rpcc, err := cl.Client()
+		var rpcc plugin.ClientProtocol
+		var raw interface{}
+		var err error
+		if !within(25*time.Second, func() {
+			if rpcc, err = cl.Client(); err == nil {
+				raw, err = rpcc.Dispense("vp")
+			}
+		}) {
+			err = fmt.Errorf("the plugin could not be started and dispensed within 25 s")
+		}
 		if err != nil {
 			boundedKill(cl)
 			return nil, nil, c
 		}
 		pluginPid = cl.ReattachConfig().Pid
-		raw, err := rpcc.Dispense("vp")
-		if err != nil {
-			boundedKill(cl)
-			return nil, nil, c
-		}
 		caller := bounded(raw.(vp.Caller))
 		dispenseAndCall := func(g int) {
 			for k := 0; k < c.K; k++ {
@@ -267,7 +271,7 @@ func runOneRace(c rcCase) (sx.V, sx.V, rcCase) {
 		switch c.Kind {
 		case "dispense":
 			spawn(c.N, dispenseAndCall)
-			wg.Wait()
+			waitBounded(&wg)
 			boundedKill(cl)
 		case "broker":
 			n := c.N
@@ -285,10 +289,10 @@ func runOneRace(c rcCase) (sx.V, sx.V, rcCase) {
 						idMu.Unlock()
 					}
 				})
-				wg.Wait()
+				waitBounded(&wg)
 			}
 			spawn(n, brokerOps)
-			wg.Wait()
+			waitBounded(&wg)
 			boundedKill(cl)
 		case "shutdown":
 			// operations in flight while the client is shut down from several goroutines at once
@@ -299,7 +303,7 @@ func runOneRace(c rcCase) (sx.V, sx.V, rcCase) {
 			time.Sleep(time.Duration(5+c.Seed%40) * time.Millisecond)
 			spawn(c.N, func(int) { rpcc.Close() }) // many closers at once: the close-once guards are what is under test
 			spawn(3, func(int) { cl.Kill() })
-			wg.Wait()
+			waitBounded(&wg)
 			fails = 0 // operations cut short by the shutdown fail legitimately
 		}
 	}
@@ -324,7 +328,7 @@ func runOneRace(c rcCase) (sx.V, sx.V, rcCase) {
 		return out
 	}
 	in := sx.L{sx.I(len(hostIDs)), sx.I(len(plugIDs))}
-	obs := sx.L{sx.I(rh), sx.I(rp), sx.I(np), sx.I(int(fails)), ids(hostIDs), ids(plugIDs)}
+	obs := sx.L{sx.I(rh), sx.I(rp), sx.I(np), sx.I(int(fails) + int(atomic.LoadInt32(&raceHangs))), ids(hostIDs), ids(plugIDs)}
 	return in, obs, c
 }
 
@@ -465,7 +469,7 @@ func runAcceptClose(c rcCase, prefix string) (sx.V, sx.V, rcCase) {
 			cw.Add(1)
 			go func() { defer cw.Done(); guard(func() { rpcc.Close() }) }()
 		}
-		cw.Wait()
+		waitBounded(&cw)
 		close(stop)
 		wgDone := make(chan struct{})
 		go func() { wg.Wait(); close(wgDone) }()
@@ -562,4 +566,14 @@ func runReuseID(c rcCase, prefix string) (sx.V, sx.V, rcCase) {
 	}
 	c.Note = first
 	return sx.L{sx.I(0), sx.I(0)}, sx.L{sx.I(rh), sx.I(rp), sx.I(np), sx.I(0), sx.L{}, sx.L{}}, c
+}
+
+// waitBounded: a scenario's goroutines normally finish within seconds; a changed library can block one of them for good
+// (a Dial that never gets its ack): after 40 s the scenario goes on without them and the hang is counted as a failure.
+var raceHangs int32
+
+func waitBounded(wg *sync.WaitGroup) {
+	if !within(40*time.Second, wg.Wait) {
+		atomic.AddInt32(&raceHangs, 1)
+	}
 }
